@@ -387,3 +387,117 @@ def finish(ctx, rule, exhaustive=False, extra_cov=None):
 
 def distinct_count(rows, key):
     return len({json.dumps(key(r), sort_keys=True) for r in rows})
+
+
+# --------------------------------------------------------------------------
+# TLC state dumps (Role B: walk the reachable states of a design model)
+
+def parse_dump(path):
+    """Yield {var: value_text} for every state of a TLC -dump file (values may
+    wrap over several lines)."""
+    cur, name = {}, None
+    with open(path) as f:
+        for line in f:
+            line = line.rstrip("\n")
+            if line.startswith("State ") and line.endswith(":"):
+                if cur:
+                    yield cur
+                cur, name = {}, None
+                continue
+            m = re.match(r"^/\\ (\w+) = (.*)$", line)
+            if m:
+                name = m.group(1)
+                cur[name] = m.group(2)
+            elif name is not None and line.strip():
+                cur[name] += " " + line.strip()
+    if cur:
+        yield cur
+
+
+def parse_dump_var(path, var):
+    for st in parse_dump(path):
+        yield st[var]
+
+
+def parse_int_seq(txt):
+    txt = txt.strip()
+    assert txt.startswith("<<") and txt.endswith(">>"), txt
+    body = txt[2:-2].strip()
+    return [int(x) for x in body.split(",")] if body else []
+
+
+# --------------------------------------------------------------------------
+# running the driver on cases in crash-isolated child processes
+
+def run_driver_batches(ctx, drv, sub, cases, args=(), batch=5000, timeout=600, random_args=None,
+                       mem_kb=4 * 1024 * 1024, reconfirm=True):
+    """Runs `drv sub -cases <batch> -out <obs>` per batch of cases, each in its
+    own process under a timeout and an address-space limit.  A batch that dies
+    or hangs is attributed to the case in flight (inflight file), which is then
+    re-run alone; if it reproduces it is returned in `crashes`.
+    Returns (rows, crashes) where crashes = [(case, how, output_tail)]."""
+    rows, crashes = [], []
+    d = ctx.dir("drv_%s" % sub)
+    jobs = []
+    for i in range(0, len(cases), batch):
+        jobs.append((cases[i:i + batch], []))
+    if random_args:
+        jobs.append(([], list(random_args)))
+    if not jobs:
+        jobs = [([], [])]
+    running = []
+
+    def launch(j, part, extra):
+        cf = os.path.join(d, "cases_%d.ndjson" % j)
+        of = os.path.join(d, "obs_%d.ndjson" % j)
+        inf = os.path.join(d, "inflight_%d.json" % j)
+        write_ndjson(cf, part)
+        cmd = "ulimit -v %d; exec %s %s -cases %s -out %s -inflight %s -seed %d %s" % (
+            mem_kb, drv, sub, cf, of, inf, ctx.seed, " ".join(list(args) + extra))
+        p = subprocess.Popen(["/bin/sh", "-c", cmd], stdout=subprocess.PIPE, stderr=subprocess.STDOUT)
+        return (p, of, inf, time.time(), part)
+
+    pending = list(enumerate(jobs))
+    results = []
+    while pending or running:
+        while pending and len(running) < NCPU:
+            j, (part, extra) = pending.pop(0)
+            running.append(launch(j, part, extra))
+        still = []
+        for (p, of, inf, t0, part) in running:
+            rc = p.poll()
+            if rc is None:
+                if time.time() - t0 > timeout:
+                    p.kill()
+                    p.wait()
+                    results.append((of, inf, "timeout", "", part))
+                else:
+                    still.append((p, of, inf, t0, part))
+                continue
+            out = p.stdout.read().decode("utf-8", "replace")
+            results.append((of, inf, "ok" if rc == 0 else "rc=%d" % rc, out, part))
+        running = still
+        time.sleep(0.02)
+    for of, inf, how, out, part in results:
+        if os.path.exists(of):
+            try:
+                rows += read_ndjson(of)
+            except Exception:
+                # a truncated last line after a crash
+                with open(of) as f:
+                    for line in f:
+                        try:
+                            rows.append(json.loads(line))
+                        except Exception:
+                            pass
+        if how != "ok":
+            case = None
+            if os.path.exists(inf):
+                try:
+                    case = json.load(open(inf))
+                except Exception:
+                    case = None
+            if case is None:
+                raise Inconclusive("driver %s died (%s) with no case in flight:\n%s" % (sub, how, out[-3000:]))
+            crashes.append((case, how, out[-3000:]))
+    return rows, crashes
